@@ -1,5 +1,6 @@
 import Gmsm.Model.KeyType
 import Driver.Negotiate
+import Driver.CertSelect
 namespace Driver
 open Model.KeyType
 
@@ -64,6 +65,6 @@ def hsktOp (args : List String) : String :=
 def keyTypeDispatch (toks : List String) : Option String :=
   match toks with
   | "hskt" :: rest => some (hsktOp rest)
-  | _ => none
+  | _ => certSelectDispatch toks      -- hssni (Driver/CertSelect.lean)
 
 end Driver
